@@ -77,6 +77,11 @@ func corpusC02() []*Case {
 		[]Pkg{pk("a", "1.0", "b", "c"), pk("b", "1.0"), pk("c", "1.0", "!b")},
 		w("a"), w("b=1.0", "c=1.0", "a=1.0"), w("a=1.0", "b=1.0", "c=1.0"), w("c=1.0", "b=1.0", "a=1.0"), w("a=1.0", "c=1.0", "b=1.0"),
 		w("c", "b"), w("b", "c")))
+	// a dependency with an unknown operator keeps its version text ("b><zz": name b, version zz, no operator): it is
+	// ignored while b is not in `selected` and a parse error once it is (needed hypothesis of c09_fixpoint_resolver_partial)
+	cs = append(cs, single("dependency with an unknown operator and an unparsable version",
+		[]Pkg{pk("a", "1.0", "b><zz"), pk("b", "1.0", "c"), pk("c", "1.0")},
+		w("a"), w("c=1.0", "b=1.0", "a=1.0"), w("a=1.0", "b=1.0", "c=1.0"), w("b", "a"), w("a", "b")))
 	cs = append(cs, single("existing version and origin preference",
 		[]Pkg{pk("app", "1.0", "lib"), pk("lib", "1.0").origin("o"), pk("lib", "2.0").origin("o"), pk("tool", "1.0", "lib=1.0"), pk("q", "1.0").origin("o").prov("lib=9")},
 		w("tool", "app"), w("app", "tool"), w("app"), w("lib=1.0", "app"), w("app", "lib<2")))
